@@ -197,14 +197,16 @@ Section Model.
         if negb (p_arr_c p) then R (idle Stalled csid) (idle Stalled nsid) wrongdel [] else
         (* flight4Parse: ClientKeyExchange -> master secret -> SetSession; then the client's Finished record *)
         if negb (K_eqb ks kc) then R (idle Stalled csid) (idle Stalled ssid) wrongdel srv_set else
-        match f with
-        | FSVerify =>
+        (* the server checks the client's Finished (verify_data), then calls VerifyConnection *)
+        match (if negb (V_eqb (VD true (p_mss p) tr) (VD true (p_msc p) tr)) then Some 40
+               else match f with FSVerify => Some 42 | _ => None end) with
+        | Some d =>
             if wraps_to (option_map fst (nego p))
-            then R (idle (SentAlert 50) csid) (idle (SentAlert 42) ssid) (wrongdel ++ cdel)
+            then R (idle (SentAlert 50) csid) (idle (SentAlert d) ssid) (wrongdel ++ cdel)
                    (srv_set ++ if negb (ssid =? 0) then [MDel ssid] else [])
-            else R (idle (RecvAlert 42) csid) (idle (SentAlert 42) ssid) wrongdel
+            else R (idle (RecvAlert d) csid) (idle (SentAlert d) ssid) wrongdel
                    (srv_set ++ if negb (ssid =? 0) then [MDel ssid] else [])
-        | _ =>
+        | None =>
             let S := s_side p (p_mss p) ks ssid in
             if negb (p_arr_s p) then R (idle Stalled csid) S wrongdel srv_set else
             if negb (K_eqb kc ks) then R (idle Stalled csid) S wrongdel srv_set else
@@ -228,6 +230,15 @@ Section Model.
         | _, _ => conn_full p off
         end
     end.
+
+  (* conn.go notify, reached from the RECORD path of an established connection as well (fatal
+     unexpected_message for epoch-0 application data or an unhandled content type, decode_error for an
+     undecodable record): level fatal and len(state.SessionID) > 0 -> DelSession(sessionKey()).
+     [sid] is the side's state.SessionID. *)
+  Definition alert_ops_client (p : params) (sid : bid) : list mop :=
+    if negb (sid =? 0) then [MDel (p_ckey p)] else [].
+  Definition alert_ops_server (sid : bid) : list mop :=
+    if negb (sid =? 0) then [MDel sid] else [].
 
   Definition post_c (cs : store) (r : result) : store := apply_ops cs (r_cops r).
   Definition post_s (ss : store) (r : result) : store := apply_ops ss (r_sops r).
